@@ -22,15 +22,15 @@ where
     pub closed spec fn backing_len(&self) -> int { self.container.items().len() as int }
 }
 
-// vstd's specification of core::convert::From: this impl opts out of the spec-level model (its own
-// `ensures` on `from` is what callers get).
+// vstd's specification of core::convert::From / Into: the spec-level model of this impl, so that callers going
+// through `.into()` (SortedDeque::new) learn what they get.  Verus checks the real `from` against it.
 impl<Container> vstd::std_specs::convert::FromSpecImpl<Container> for SlidingDeque<Container>
 where
     Container: PushTruncateContainer + Clone + Default,
     <Container as PushTruncateContainer>::Item: Copy,
 {
-    open spec fn obeys_from_spec() -> bool { false }
-    open spec fn from_spec(c: Container) -> Self { arbitrary() }
+    open spec fn obeys_from_spec() -> bool { true }
+    closed spec fn from_spec(c: Container) -> Self { SlidingDeque { consumed_prefix: 0, container: c } }
 }
 
 // Deref for SlidingDeque.  A trait impl cannot carry a `requires`, so the REAL body of `deref` is verified
